@@ -266,6 +266,12 @@ impl ModuleRef {
         let stages = self.num_sim_start_stages();
         for stage in 0..stages {
             self.at_sim_start(stage)?;
+            // A panic that the stereotype catches does not surface as an error, but it has
+            // deactivated the module: the remaining stages must not run (they would poll the
+            // tasks spawned before the panic), just as in the start-up sweep.
+            if !self.ctx.active.load(SeqCst) {
+                break;
+            }
         }
         Ok(())
     }
